@@ -11,6 +11,8 @@ import (
 	"strconv"
 	"strings"
 	"time"
+
+	"golang.org/x/tools/go/ssa"
 )
 
 type funcReport struct {
@@ -135,12 +137,18 @@ func cmdFunc(args []string) int {
 			rc = 1
 			continue
 		}
-		fn := P.Funcs[id]
-		if fn == nil && con.Kind != "lemma" {
-			fmt.Printf("function %s not found\n", id)
-			rc = 1
-			continue
+		var fns []*ssa.Function
+		if con.Kind != "lemma" {
+			fns = P.targetsOf(id)
+			if len(fns) == 0 {
+				fmt.Printf("function %s not found\n", id)
+				rc = 1
+				continue
+			}
+		} else {
+			fns = []*ssa.Function{nil}
 		}
+		for _, fn := range fns {
 		if con.Kind == "lemma" {
 			c, err = verifyLemma(P, CS, con)
 		} else {
@@ -166,6 +174,7 @@ func cmdFunc(args []string) int {
 		}
 		for _, u := range c.unsupported {
 			fmt.Println("   note:", u)
+		}
 		}
 	}
 	return rc
@@ -256,8 +265,8 @@ func cmdCheck(args []string) int {
 			ctxs = append(ctxs, c)
 			continue
 		}
-		fn := P.Funcs[con.ID]
-		if fn == nil {
+		fns := P.targetsOf(con.ID)
+		if len(fns) == 0 {
 			rep.Error = "contract binds to no function"
 			violation("unbound:"+con.ID, map[string]interface{}{"obligation": "unbound-contract", "function": con.ID, "contract": fmt.Sprintf("%s:%d", con.File, con.Line), "error": rep.Error}, false)
 			continue
@@ -266,14 +275,19 @@ func cmdCheck(args []string) int {
 			rep.Notes = append(rep.Notes, "trusted: contract assumed, body not verified")
 			continue
 		}
-		c, err := verifyFunction(P, CS, fn, con)
-		if err != nil {
-			rep.Error = err.Error()
-			violation("unverifiable:"+con.ID, map[string]interface{}{"obligation": "vc-generation", "function": con.ID, "error": err.Error()}, false)
-			continue
+		for _, fn := range fns {
+			c, err := verifyFunction(P, CS, fn, con)
+			if err != nil {
+				rep.Error = err.Error()
+				violation("unverifiable:"+shortID(fn.String()), map[string]interface{}{"obligation": "vc-generation", "function": shortID(fn.String()), "error": err.Error()}, false)
+				continue
+			}
+			rep.Notes = append(rep.Notes, c.unsupported...)
+			if len(fns) > 1 {
+				rep.Notes = append(rep.Notes, "generic instance verified: "+shortID(fn.String()))
+			}
+			ctxs = append(ctxs, c)
 		}
-		rep.Notes = c.unsupported
-		ctxs = append(ctxs, c)
 	}
 	for _, msg := range guardCoverage(P, CS, *prop) {
 		violation("lock.coverage:"+truncate(msg, 80), map[string]interface{}{"obligation": "lock.coverage", "error": msg}, false)
